@@ -72,10 +72,46 @@ def render_body(body, modname):
     return lines
 
 
+# Conditional top-level statements of library modules: a run of consecutive statements is put inside a compound
+# statement whose body IS executed when the module is imported in the generated tree (the other branches are empty
+# or fail), so the flat binding list stays the module's meaning while the text exercises how trace_origin walks
+# try/except/else/finally, if/else, with, for/while-else and match/case at module level.
+def _ind(lines, n=1):
+    return "\n".join(" " * 4 * n + l for txt in lines for l in txt.split("\n"))
+
+
+WRAP_KINDS = {
+    "except": lambda b: "try:\n    import _c18_missing_accel\nexcept ImportError:\n" + _ind(b),
+    "try": lambda b: "try:\n" + _ind(b) + "\nexcept ImportError:\n    pass",
+    "else": lambda b: "try:\n    pass\nexcept ImportError:\n    pass\nelse:\n" + _ind(b),
+    "finally": lambda b: "try:\n    pass\nfinally:\n" + _ind(b),
+    "if": lambda b: "if True:\n" + _ind(b),
+    "ifelse": lambda b: "if 0:\n    pass\nelse:\n" + _ind(b),
+    "elif": lambda b: "if 0:\n    pass\nelif 1:\n" + _ind(b),
+    "with": lambda b: "with open(__file__):\n" + _ind(b),
+    "for": lambda b: "for _c18_i in (0,):\n" + _ind(b),
+    "forelse": lambda b: "for _c18_i in ():\n    pass\nelse:\n" + _ind(b),
+    "whileelse": lambda b: "while False:\n    pass\nelse:\n" + _ind(b),
+    "match": lambda b: "match 1:\n    case 1:\n" + _ind(b, 2),
+    "nested": lambda b: "if True:\n    try:\n        import _c18_missing_accel\n    except ImportError:\n" + _ind(b, 2),
+}
+
+
+def apply_wraps(lines, wraps):
+    """wraps: non-overlapping (start, end, kind) over the statement list"""
+    out, i = [], 0
+    for a, b, kind in sorted(wraps):
+        if a < i or b > len(lines) or a >= b:
+            continue
+        out += lines[i:a] + [WRAP_KINDS[kind](lines[a:b])]
+        i = b
+    return out + lines[i:]
+
+
 def render_module(m):
     if m.get("raw") is not None:
         return m["raw"]
-    lines = render_body(m["body"], m["name"])
+    lines = apply_wraps(render_body(m["body"], m["name"]), m.get("wrap") or [])
     if m["all"] is not None:
         items = ", ".join(repr(n) for n in m["all"])
         txt = f"__all__ = ({items}{',' if m['all'] else ''})" if m["all_tuple"] else f"__all__ = [{items}]"
@@ -304,7 +340,7 @@ def run_worker(jobs, base: Path, timeout=600):
 # generators
 
 def small_scope_trees():
-    """exhaustive family: 4 variants of ma x 11 variants of mb (those that load)"""
+    """exhaustive family: 4 variants of ma x 18 variants of mb (those that load) + mb with conditional statements"""
     mas = [
         mod("ma", [("assign", "x"), ("assign", "y")]),
         mod("ma", [("assign", "x"), ("def", "y"), ("assign", "_u")]),
@@ -342,7 +378,18 @@ def small_scope_trees():
         t = {"mods": [a, mz, b]}
         if tree_loads(t):
             out.append(t)
-    return out
+    # conditional top-level statements in mb: the whole body / its tail inside every kind of compound statement
+    b1 = [("star", "ma"), ("assign", "w")]
+    b2 = [("from", "ma", "x", "x"), ("from", "ma", "y", "z", "+"), ("import", "ma", "q"), ("def", "w")]
+    b3 = [("assign", "x"), ("from", "ma", "y", "x"), ("assign", "z")]
+    for kind in WRAP_KINDS:
+        for a in (mas[0], mas[2]):
+            out.append({"mods": [a, mz, dict(mod("mb", b1), wrap=[(0, 2, kind)])]})
+        if kind in ("except", "match", "else", "with", "nested"):
+            out.append({"mods": [mas[0], mz, dict(mod("mb", b2), wrap=[(0, 3, kind)])]})
+        if kind in ("except", "match", "finally"):
+            out.append({"mods": [mas[0], mz, dict(mod("mb", b3), wrap=[(1, 2, kind)])]})
+    return [t for t in out if tree_loads(t)]
 
 
 SMALL_CLIENTS = [
@@ -446,6 +493,10 @@ def random_tree(rnd):
             body = [("assign", rnd.choice(POOL))]
         body = join_pass(rnd, body, allow_dup=True)
         m = mod(name, body, init=(name == "pk"))
+        if rnd.random() < 0.45:
+            n_st = len(render_body(body, name))
+            a = rnd.randrange(n_st)
+            m["wrap"] = [(a, rnd.randint(a + 1, n_st), rnd.choice(sorted(WRAP_KINDS)))]
         tree["mods"].append(m)
         if rnd.random() < 0.3:
             ns = sorted(namespace(tree, name, POOL))
@@ -962,6 +1013,13 @@ def special_tree():
                     ("import", "ma", "first"), ("import", "mb", "ma", "+")]),
         # one statement binds v twice: Python keeps the last alias (F18-12, repaired)
         {"name": "mtw", "init": False, "all": None, "body": [], "raw": "from ma import x as v, y as v\n"},
+        # optional accelerator with a pure-Python fallback (the accelerator is not installed in the tree)
+        {"name": "mcompat", "init": False, "all": None, "body": [],
+         "raw": "try:\n    from _c18_accel import *\nexcept ImportError:\n    def f():\n        pass\n\n    k = ['@mcompat:k']\n"},
+        {"name": "mshim", "init": False, "all": None, "body": [],
+         "raw": "plain = ['@mshim:plain']\ntry:\n    from _c18_accel import enc\nexcept ImportError:\n    from ma import x as enc\n"},
+        {"name": "mmatch", "init": False, "all": None, "body": [],
+         "raw": "import sys\nmatch sys.platform:\n    case 'c18-none':\n        pass\n    case _:\n        def f():\n            pass\n\n        k = ['@mmatch:k']\n"},
     ]}
 
 
@@ -1001,6 +1059,10 @@ SPECIALS = [
     ("swap-from", "from msw import x, w\nprint(x, w)\n", ["x", "w"], ALL_RULES),
     ("swap-import", "from msw import ma, first\nprint(ma, first)\n", ["ma", "first"], ALL_RULES),
     ("twice-in-one-statement", "from mtw import v\nprint(v)\n", ["v"], ALL_RULES),
+    # the seeded regression C18-b: bindings of the imported module inside `except` handlers / `case` blocks
+    ("compat-star", "from mcompat import *\nprint(f, k)\n", ["f", "k"], ALL_RULES),
+    ("shim-from", "from mshim import enc, plain\nprint(enc, plain)\n", ["enc", "plain"], ALL_RULES),
+    ("match-star", "from mmatch import *\nprint(f, k)\n", ["f", "k"], ALL_RULES),
 ]
 
 
@@ -1270,7 +1332,9 @@ def check(run: common.Run):  # noqa: C901
             "harness/c18.py: tree generator/renderer, id numbering (order preserving, odd = leading underscore), "
             "client parser, harness/c18_worker.py (identity comparison inside one process)"])
     run.assumptions += [
-        "module bodies are unconditional top-level statements; acyclic import graphs (the topo_ok guard)",
+        "module bodies are unconditional top-level statements in the theorems; correspondence and sweep also wrap them in "
+        "compound statements whose executed branch holds the bindings (try/except/else/finally, if, with, loops, match); "
+        "acyclic import graphs (the topo_ok guard)",
         "absolute imports only in the model; relative imports appear only in the sweep (known finding)",
         "add_missing_imports guesses are outside any model: the sweep only checks that no previously bound name "
         "changes its object",
